@@ -1,4 +1,5 @@
 import Replicon.Proofs.Events
+import Replicon.Proofs.JointLocal
 /-
 C13 — Singleplayer and listen-server logic sees each local event exactly once.
 
@@ -73,6 +74,23 @@ theorem C13_local_recipient (m : Mode) :
   | broadcast => simp [localDelivery]
   | except c => cases c <;> simp [localDelivery]
   | direct c => cases c <;> simp [localDelivery]
+
+/-- Towards clients, over ALL histories of the joint server model (any interleaving of world
+operations, connects, stops and starts, emissions, frames; server running or not — the
+singleplayer and listen-server cases): what the local game has observed, followed by what the
+next frame will hand it, is exactly the sequence of emitted events whose recipients include
+the local server, in emission order — each once, none other. -/
+theorem C13_history_local (ops : List Joint.Op) :
+    (Joint.run {} ops).1.localLog ++ Joint.localIds (Joint.run {} ops).1.pending = Joint.emittedLocal ops := by
+  have := Joint.local_log ops {}
+  simpa [Joint.localIds] using this
+
+/-- … so once a frame has run after the last emission, the local log is exactly that sequence -/
+theorem C13_history_local_after_frame (ops : List Joint.Op) (t : Bool) (ms : Nat) (parts : Nat → List (List Nat)) :
+    (Joint.run {} (ops ++ [.frame t ms parts])).1.localLog = Joint.emittedLocal ops := by
+  have h := C13_history_local (ops ++ [.frame t ms parts])
+  rw [Joint.pending_after_frame t ms parts ops {}, Joint.emittedLocal_append_frame] at h
+  simpa [Joint.localIds] using h
 
 /-- Non-vacuity of `NoStale`: the session ends after the buffer aged out — one path only. -/
 example :
